@@ -374,6 +374,19 @@ func passwords(tp *tape.Tape) (server, client string) {
 		}
 		return
 	}
+	if tp.Bool(1, 12) {
+		// same length, the same bit flipped in 256/mask bytes: the byte-wise
+		// differences cancel under XOR and add up to exactly 256
+		pPwBalanced.Hit()
+		server = "a-much-longer-password-0123456789"
+		mask := []byte{0x80, 0x40, 0x20, 0x10}[tp.Choose(4)]
+		b := []byte(server)
+		for i := 0; i < 256/int(mask); i++ {
+			b[i] ^= mask
+		}
+		client = string(b)
+		return
+	}
 	switch tp.Pick(4, 1, 1, 1, 1, 1, 1, 1, 1) {
 	case 7:
 		// two characters swapped (same multiset of bytes)
@@ -833,3 +846,5 @@ var pWrongTypeRefused = simrt.NewProbe("byzantine.response.type!=0.refused.by.Re
 var pWrongTypeAccepted = simrt.NewProbe("byzantine.response.type!=0.accepted.by.Resp(recorded,not.asserted)")
 
 var pPwLongPrefix = simrt.NewProbe("login.password.prefix.pairs.with.length.difference.255..3840")
+
+var pPwBalanced = simrt.NewProbe("login.password.pairs.whose.byte.differences.cancel(xor)/sum.to.256(add)")
